@@ -120,7 +120,7 @@ props["C06"] = {
         "page images are 512 bytes of which the first 8 are symbolic",
     ],
     "stubs": ["ReplicaClient mock storing encoded files (sorted iterator with the seek filter of the file backend)", "io.Pipe as an unbounded buffer with the producer goroutine run to completion first", "lz4 identity, crc64 constant", "log/slog no-op"],
-    "outside": ["more than K new source files, 2 pages per input, databases above C pages", "storage faults (C05)", "Store.CompactDB's scheduling shortcuts and DB.Snapshot's page source (needs a database file; see C02)"],
+    "outside": ["more than K new source files, 2 pages per input, databases above C pages", "storage faults (C05)", "Store.CompactDB's scheduling shortcuts"],
 }
 
 # ---- MANIFEST text per property -------------------------------------------------
@@ -130,39 +130,39 @@ claims = {
             "Assumes snapshot files start at TXID 1 and backends list a level in (min,max) order.", "DESIGN.md 5 (C08), Appendix D.1"),
     "C09": ("The real WALReader (NewWALReader, NewWALReaderWithOffset, readHeader, readFrame, ReadFrame, Offset, pageMap, PageMap, WALChecksum) is executed symbolically over WAL images in which every byte except the page-size field is symbolic, at every frame-boundary and torn length, both checksum byte orders, every resume offset and byte budget; each result is compared with a reference model of SQLite's WAL recovery for a symbolic witness page. Bounded: K<=2 frames of 8-byte pages (quick), K<=3 plus 64- and 512-byte pages (thorough).",
             "Assumes a valid page-size field and no page-0 frames (A-PS, A-PG0); the reference model itself is an assumption (DESIGN.md D.2).", "DESIGN.md 5 (C09), Appendix D.2"),
-    "C15": ("Timestamp mode of the real planner over symbolic file sets: no plan file at or after T; two requests T1<=T2 on one file set (later T still restorable and never an earlier state); with level 0 complete, a compacted file and a snapshot present, the result is exactly the last TXID replicated before T and a T not after the first backup fails. Bounded: N<=3/4 files (2-run), N<=4/6 TXIDs (exact).",
+    "C15": ("Timestamp mode of the real planner over symbolic file sets: no plan file at or after T; two requests T1<=T2 on one file set (later T still restorable and never an earlier state); with level 0 complete, a compacted file and a snapshot present, the result is exactly the last TXID replicated before T and a T not after the first backup fails. Bounded: N<=3/4 files (2-run), N<=4/6 TXIDs (exact). A snapshot that waited for the executor behind a sync round (interleaving point lockExec) covers that round's TXID and is stamped no earlier than it.",
             "Assumes monotone replication instants and that compacted files carry their newest input's timestamp (decided by C06).", "DESIGN.md 5 (C15)"),
-    "C07": ("One retention pass of each kind (Store.EnforceSnapshotRetention with its cascade, DB.EnforceL0RetentionByTime, the Compactor's three entry points, and both DB passes in sequence) is executed symbolically from every replica layout up to TXID N that satisfies the representation invariant R-REP, with every file's age symbolic around the thresholds and RetentionEnabled on and off. After the pass the real CalcRestorePlan must still reach the latest TXID, a snapshot must remain, level 0 must be a contiguous suffix, and no remote delete may be issued when retention is disabled.",
+    "C07": ("One retention pass of each kind (Store.EnforceSnapshotRetention with its cascade, DB.EnforceL0RetentionByTime, the Compactor's three entry points, and both DB passes in sequence) is executed symbolically from every replica layout up to TXID N that satisfies the representation invariant R-REP, with every file's age symbolic around the thresholds and RetentionEnabled on and off. After the pass the real CalcRestorePlan must still reach the latest TXID, a snapshot must remain, level 0 must be a contiguous suffix, and no remote delete may be issued when retention is disabled. The DB's cached newest level-0 file may be a local file that has not been uploaded yet.",
             "The invariant R-REP is an assumption about reachable replica states (argued in DESIGN.md D.3); time does not pass inside one pass.", "DESIGN.md 5 (C07), Appendix D.3"),
-    "C06": ("One Compactor.Compact step from every level layout within the bound that satisfies R-LVL, through the real ltx.Compactor, ltx.Encoder and ltx.Decoder (only lz4 and crc64 modelled): the output range continues the level, only the new source files are opened and in TXID order, nothing is written when nothing is new, the cache equals the written file, the level stays contiguous; for a symbolic witness page the output holds it iff some input holds it within the final commit size, with the last input's image, equal to applying the inputs in order; commit and timestamp are the newest input's.",
+    "C06": ("One Compactor.Compact step from every level layout within the bound that satisfies R-LVL, through the real ltx.Compactor, ltx.Encoder and ltx.Decoder (only lz4 and crc64 modelled): the output range continues the level, only the new source files are opened and in TXID order, nothing is written when nothing is new, the cache equals the written file, the level stays contiguous; for a symbolic witness page the output holds it iff some input holds it within the final commit size, with the last input's image, equal to applying the inputs in order; commit and timestamp are the newest input's. VxC06DBCompact runs DB.Compact(1) with the DB's own compactor wiring and a local level-0 directory that is a suffix of, or one file ahead of, the replica, followed by the level-0 retention pass; VxC02Snapshot (shared) decides the level-9 snapshot's size and page images, including after a shrink.",
             "Codec model: lz4 identity, crc64 constant. Chains starting at TXID 1 are assumed growth-complete.", "DESIGN.md 5 (C06), Appendix D.3"),
-    "C19": ("The real sortSnapshotsV3ByCreatedAt, findBestSnapshotV3, filterWALSegmentsV3, applyWALSegmentsV3, appendWALSegmentV3, RestoreV3 (over the file-system model) and shouldUseV3Restore/TimeBoundsV3/findBestLTXSnapshotForTimestamp are executed symbolically over legacy layouts with every segmentation of IDX WAL indexes into 1-2 segments of 1-2 bytes, any one segment removed, symbolic snapshot/segment/LTX ages and requested time. Asserted: the snapshot used is the newest eligible; the filter keeps exactly the eligible segments; a listing that is not one contiguous run from (snapshot index,0) is an error with no output and no temp file; a contiguous run reassembles each WAL byte-exactly; the format with the more recent eligible backup is chosen.",
+    "C19": ("The real sortSnapshotsV3ByCreatedAt, findBestSnapshotV3, filterWALSegmentsV3, applyWALSegmentsV3, appendWALSegmentV3, RestoreV3 (over the file-system model) and shouldUseV3Restore/TimeBoundsV3/findBestLTXSnapshotForTimestamp are executed symbolically over legacy layouts with every segmentation of IDX WAL indexes into 1-2 segments of 1-2 bytes, any one segment removed, symbolic snapshot/segment/LTX ages and requested time. Asserted: the snapshot used is the newest eligible; the filter keeps exactly the eligible segments; a listing that is not one contiguous run from (snapshot index,0) is an error with no output and no temp file; a contiguous run reassembles each WAL byte-exactly; the format with the more recent eligible backup is chosen. VxC19Generations restores through RestoreV3 from two or three generations listed by name with symbolic snapshot and segment ages and an optional requested time: newest eligible snapshot across generations, its WAL, or an error.",
             "SQLite's application of the reassembled WAL is cut out (checkpointV3 stand-in, also in the native twin). Contiguity is what a listing can show.", "DESIGN.md 5 (C19), 7 (H7)"),
-    "C16": ("The real applyNewLTXFiles and fillFollowGap are executed symbolically over every set of N files at levels 0-2 with symbolic ranges and every current TXID: each poll applies a valid chain from the current TXID, returns its end, never regresses, and N+1 polls reach the furthest TXID any chain reaches. The real applyLTXFile (real ltx decoder) is checked on a database file: pages at their offsets, size cut to the commit, only header bytes 18-19/24-27 rewritten, file flushed. The real follow loop with WriteTXIDFile/ReadTXIDFile runs over the file-system model with the process killed before every mutating operation: the sidecar always parses, is never ahead of the applied TXID, never regresses, and a restart resumes from it with a connecting file and converges.",
-            "The follower's applied TXID in the kill harness is a ghost recorded at the applyLTXFile cut; kill points are file-system operations of the follower only.", "DESIGN.md 5 (C16)"),
-    "C05": ("The real Replica.syncOnce/sync/uploadLTXFile/calcPos/MaxLTXFileInfo/SetPos, DB.Pos/MaxLTX (real LTX decoder) and Compactor.Compact are executed under every assignment of {ok, fail-before, fail-mid-upload, fail-after-effect} to each client call for R faulty rounds followed by a fault-free round: the remote level 0 is 1..max after every call, a nil non-limited result means the local position is stored, the cached position is never ahead of the replica and is forgotten on error, the fault-free round catches up, stored bytes equal the local files; a failed compaction leaves no partial file and no cache entry for a missing file, and a retry writes the right range.",
+    "C16": ("The real applyNewLTXFiles and fillFollowGap are executed symbolically over every set of N files at levels 0-2 with symbolic ranges and every current TXID: each poll applies a valid chain from the current TXID, returns its end, never regresses, and N+1 polls reach the furthest TXID any chain reaches. The real applyLTXFile (real ltx decoder) is checked on a database file: pages at their offsets, size cut to the commit, only header bytes 18-19/24-27 rewritten, file flushed. The real follow loop with WriteTXIDFile/ReadTXIDFile runs over the file-system model with the process killed before every mutating operation: the sidecar always parses, is never ahead of the applied TXID, never regresses, and a restart resumes from it with a connecting file and converges. The restart goes through Restore's crash-recovery entry (sidecar read, validation against the replica, loop).",
+            "The follower's applied TXID in the kill harness is a ghost recorded at the applyLTXFile cut; kill points are file-system operations of the follower only. H13 (a follower ahead of the newest snapshot could not resume) was found here and repaired.", "DESIGN.md 5 (C16)"),
+    "C05": ("The real Replica.syncOnce/sync/uploadLTXFile/calcPos/MaxLTXFileInfo/SetPos, DB.Pos/MaxLTX (real LTX decoder) and Compactor.Compact are executed under every assignment of {ok, fail-before, fail-mid-upload, fail-after-effect} to each client call for R faulty rounds followed by a fault-free round: the remote level 0 is 1..max after every call, a nil non-limited result means the local position is stored, the cached position is never ahead of the replica and is forgotten on error, the fault-free round catches up, stored bytes equal the local files; a failed compaction leaves no partial file and no cache entry for a missing file, and a retry writes the right range. The real Replica.monitor (back-off, retry, tickers firing at once) runs under storage calls that fail with plain errors or with errors wrapping context errors while its own context is alive, then work: it keeps running until cancelled and the replica has caught up. Compaction sources may break mid-stream with re-opens failing.",
             "Faults are those of the ReplicaClient interface; the cached position is assumed not ahead of the database (see C04).", "DESIGN.md 5 (C05)"),
     "C20": ("Rely/guarantee step for the real s3.Leaser (AcquireLease, RenewLease, ReleaseLease, readLease, writeLease, isPreconditionFailed, isNotFoundError) and Lease.IsExpired: from every store state consistent with 'an unexpired lease is the stored record' and with the store havocked under that same condition before each of the client's requests while time advances, each operation preserves the witness client's lease while it is unexpired, issues only conditional writes, and on success leaves its own lease as the stored record with the right owner, expiry and generation; a takeover happens only after expiry and increases the generation by one; with a foreign ETag renew and release return ErrLeaseNotHeld and leave the store unchanged. Any number of other clients is covered by the havoc; mutual exclusion of two unexpired holders follows and is asserted.",
             "S3 semantics, a single clock and distinct owners are assumptions.", "DESIGN.md 5 (C20), Appendix D.5"),
-    "C17": ("The real writeLTXFromWAL is executed for all 8 page sizes with the previous and new commit sizes each ranging over lock-3..lock+3 and every subset of the four pages next to the lock page present in the WAL: no error, pages ascending and once, the lock page never encoded, a page encoded iff it is in the WAL or in the growth range. The real writeLTXFromDB runs its loop over a sparse database ending at lock-2..lock+2 (page sizes 65536 and 32768 quick; down to 4096 thorough): no error and every page except the lock page is encoded in order. In both, the real ltx.Encoder validates each page.",
+    "C17": ("The real writeLTXFromWAL is executed for all 8 page sizes with the previous and new commit sizes each ranging over lock-3..lock+3 and every subset of the four pages next to the lock page present in the WAL: no error, pages ascending and once, the lock page never encoded, a page encoded iff it is in the WAL or in the growth range. The real writeLTXFromDB runs its loop over a sparse database ending at lock-2..lock+2 (page sizes 65536 and 32768 quick; down to 4096 thorough): no error and every page except the lock page is encoded in order. In both, the real ltx.Encoder validates each page. Pages next to the lock page carry marks in the sparse database file; the encoded images must be their own.",
             "Page images are zeros; SQLite never writes the lock page.", "DESIGN.md 5 (C17)"),
-    "C10": ("The real ResumableReader.Read/retry/close and LimitedReadCloser.Read run against a stream and opener that choose, at every call, how many bytes to return and whether to succeed, end early or fail: the bytes handed to the caller are always the file's prefix, io.EOF appears only at the end of a file of known size, every reopen asks for exactly the delivered offset, at most three reconnects happen silently and an exhausted budget is permanent. The real Replica.Restore runs over replicas with a missing, truncated, undersized or unopenable file and an output side where every file-system call may fail: an existing output is refused untouched, damage is an error with no output, the output appears only by renaming a flushed and closed temp file, on error it is absent or the complete correct database, the temp file never survives, success means the correct database, and a failed integrity check removes the output.",
+    "C10": ("The real ResumableReader.Read/retry/close and LimitedReadCloser.Read run against a stream and opener that choose, at every call, how many bytes to return and whether to succeed, end early or fail: the bytes handed to the caller are always the file's prefix, io.EOF appears only at the end of a file of known size, every reopen asks for exactly the delivered offset, at most three reconnects happen silently and an exhausted budget is permanent. The real Replica.Restore runs over replicas with a missing, truncated, undersized or unopenable file and an output side where every file-system call may fail: an existing output is refused untouched, damage is an error with no output, the output appears only by renaming a flushed and closed temp file, on error it is absent or the complete correct database, the temp file never survives, success means the correct database, and a failed integrity check removes the output. The damaged file is any file of the plan (snapshot or newest).",
             "CRC-64 detection of flipped bytes is trusted, not decided.", "DESIGN.md 5 (C10)"),
-    "C13": ("The real checkpointIfNeeded, exceedsTruncateThreshold, effectiveTruncatePageN, calcWALSize and isSQLiteBusyError are executed for every configuration in the stated ranges and every pair of WAL sizes before/after a sync round: when no checkpoint is requested the WAL is below the regular threshold (or holds one frame) and was below the emergency threshold; a requested checkpoint leaves one frame; TRUNCATE is requested only at the emergency threshold and first only after PASSIVE failed; a lagging emergency request arrives in the next round; busy PASSIVE checkpoints are not errors and at most two requests are made per round; from the steady state an idle sync requests nothing.",
+    "C13": ("The real checkpointIfNeeded, exceedsTruncateThreshold, effectiveTruncatePageN, calcWALSize and isSQLiteBusyError are executed for every configuration in the stated ranges and every pair of WAL sizes before/after a sync round: when no checkpoint is requested the WAL is below the regular threshold (or holds one frame) and was below the emergency threshold; a requested checkpoint leaves one frame; TRUNCATE is requested only at the emergency threshold and first only after PASSIVE failed; a lagging emergency request arrives in the next round; busy PASSIVE checkpoints are not errors and at most two requests are made per round; from the steady state an idle sync requests nothing. VxC13Rounds runs the real syncLocked over a burst round whose checkpoint may be refused and an idle round: a due checkpoint that was skipped is retried by a sync that copies nothing.",
             "The checkpoint itself is the E-CKPT contract. Known finding H5b (emergency threshold of one page) is reported as such.", "DESIGN.md 5 (C13), 7 (H5)"),
-    "C14": ("The real DB.init, ensureWALExists, bumpLitestreamSeq, acquireReadLock, releaseReadLock, rollback, checkpointWithExecutor (all four modes), execCheckpoint and Close run over symsql with every SQL call allowed to fail and the WAL either restarted or not: every statement sent is in the whitelist (journal_mode=wal, the two CREATE TABLE IF NOT EXISTS _litestream_*, the _litestream_seq upsert, the read-lock SELECT, page_size, the _litestream_lock insert, wal_checkpoint in the four modes); no transaction is ever committed; every transaction that executed the lock insert is rolled back before the function returns; the only transaction left open is the read lock; the database and WAL files are never written through the file API; the checkpoint mutex is released; Close releases the read lock and both handles on every path.",
+    "C14": ("The real DB.init, ensureWALExists, bumpLitestreamSeq, acquireReadLock, releaseReadLock, rollback, checkpointWithExecutor (all four modes), execCheckpoint and Close run over symsql with every SQL call allowed to fail and the WAL either restarted or not: every statement sent is in the whitelist (journal_mode=wal, the two CREATE TABLE IF NOT EXISTS _litestream_*, the _litestream_seq upsert, the read-lock SELECT, page_size, the _litestream_lock insert, wal_checkpoint in the four modes); no transaction is ever committed; every transaction that executed the lock insert is rolled back before the function returns; the only transaction left open is the read lock; the database and WAL files are never written through the file API; the checkpoint mutex is released; Close releases the read lock and both handles on every path. EnsureExists never touches an existing source database, its -wal or -shm, and runs no integrity check on it.",
             "SQLite's own handling of these statements is outside the claim.", "DESIGN.md 5 (C14)"),
-    "C11": ("The publish tails of the real DB.sync, file.ReplicaClient.WriteLTXFile, WriteTXIDFile, checkDatabaseBehindReplica and Replica.Restore, and the delete path Compactor.Compact + EnforceL0Retention through the real file backend, run over a file-system model with ghost dirty bits and a fault decision at every call: a file is never renamed to a final name while it has unflushed writes or an open writer; success is returned only after the directory of the published name was flushed; the temp file never survives (unless its own removal was made to fail); a visible final file is complete and byte-identical to what was written; level-0 files are unlinked only when no publish is still waiting for its directory flush.",
+    "C11": ("The publish tails of the real DB.sync, file.ReplicaClient.WriteLTXFile, WriteTXIDFile, checkDatabaseBehindReplica and Replica.Restore, and the delete path Compactor.Compact + EnforceL0Retention through the real file backend, run over a file-system model with ghost dirty bits and a fault decision at every call: a file is never renamed to a final name while it has unflushed writes or an open writer; success is returned only after the directory of the published name was flushed; the temp file never survives (unless its own removal was made to fail); a visible final file is complete and byte-identical to what was written; level-0 files are unlinked only when no publish is still waiting for its directory flush. A sync after a run-time reset of the local state (the directory flushed is the one that exists now) and a follow-mode restore (database flushed before the rename, sidecar after) are covered; a violation that depends only on the durability ghost state is confirmed by concrete re-execution.",
             "POSIX durability model; fault-dependent counterexamples are confirmed by concrete re-execution, not natively.", "DESIGN.md 5 (C11), 7 (H4)"),
-    "C03": ("The real DB.sync, file.ReplicaClient.WriteLTXFile, WriteTXIDFile and the follow loop are killed immediately before each of their file-system mutating operations: in the tree left behind every name that parses as an LTX file and the TXID sidecar is a complete file, files acknowledged earlier are still present, the sidecar holds the old or the new value; after a restart (new DB object, real Open with removeTmpFiles, real Pos / file-backend listing) stale temp files are gone and the position is the highest complete level-0 file; the follower resumes from its sidecar.",
+    "C03": ("The real DB.sync, file.ReplicaClient.WriteLTXFile, WriteTXIDFile and the follow loop are killed immediately before each of their file-system mutating operations: in the tree left behind every name that parses as an LTX file and the TXID sidecar is a complete file, files acknowledged earlier are still present, the sidecar holds the old or the new value; after a restart (new DB object, real Open with removeTmpFiles, real Pos / file-backend listing) stale temp files are gone and the position is the highest complete level-0 file; the follower resumes from its sidecar. The baseline fetch of checkDatabaseBehindReplica is killed at every operation and restarted; after a kill the file backend's upload is retried by a new client and must go through.",
             "Kill = stop before a file-system operation of the litestream process; WAL-cursor resumption after the restart is C04.", "DESIGN.md 5 (C03)"),
-    "C02": ("The real DB.SnapshotReader (snapshotPosition, snapshotWALEndOffset, snapshotReader, pageMap with its byte budget, writeLTXFromDB) runs on a database file and a WAL generated from an abstract history with symbolic page numbers and images: the snapshot published as (1..pos) holds every page once, has the size at pos, and every page image is the one at position pos - nothing committed later in the same WAL generation, nothing from a generation the application started after the last sync, nothing from an open transaction - or the call fails. MaxLTX returns the highest parsing name whatever else is in the directory; pageMap cuts only at commit frames (C09's budget harness); each level-0 file is numbered pos+1 and holds committed pages only (C01's sync harness).",
+    "C02": ("The real DB.SnapshotReader (snapshotPosition, snapshotWALEndOffset, snapshotReader, pageMap with its byte budget, writeLTXFromDB) runs on a database file and a WAL generated from an abstract history with symbolic page numbers and images: the snapshot published as (1..pos) holds every page once, has the size at pos, and every page image is the one at position pos - nothing committed later in the same WAL generation, nothing from a generation the application started after the last sync, nothing from an open transaction - or the call fails. MaxLTX returns the highest parsing name whatever else is in the directory; pageMap cuts only at commit frames (C09's budget harness); each level-0 file is numbered pos+1 and holds committed pages only (C01's sync harness). The last replicated transaction may have shrunk the database (the snapshot's size and page set follow the state at pos, not the file size).",
             "E-WAL is an assumption about SQLite. H8 (stale end offset after an application WAL restart) was found here and fixed.", "DESIGN.md 5 (C02), 7 (H8)"),
-    "C04": ("The real verifyWithExecutor with lastPageMatch, detectFullCheckpoint, readWALHeader, readWALFileAt and the WAL reader decides continuity on WAL images generated from every abstract history within the bound (replicated frames, unseen frames, up to two restarts, truncation), with symbolic salts, page numbers and images, for a fresh process, the same process, and a DB object carried through the real Close and Open: whenever the answer is 'incremental', ground truth must say no committed frame is missing and the resume point must be the replicated offset or the start of the single new generation. After a local state reset the next acknowledged replica sync must have stored the new files, above everything already on the replica.",
-            "E-WAL is an assumption about SQLite (tested against real SQLite while writing DESIGN.md). Five defects were found here and repaired (H1, H2, H3 twice, H9).", "DESIGN.md 5 (C04), D.4, 7"),
-    "C01": ("Decided as a composition: VxC01Sync executes the real DB.sync (WAL reader, pageMap, writeLTXFromWAL / writeLTXFromDB, real LTX encoder) on a WAL whose frames after the cursor are symbolic (page numbers 1-4, images, commit marks, open tail) and checks the published file: numbered pos+1, holds a page iff it changed in a committed transaction of the range or lies in the growth range, with the latest committed image, header commit = last commit, synced offset = end of the last commit, synced-to-end flag exact. The other obligations are the harnesses of C04 (continuity), C09 (frame selection), C05 (acknowledgement), C14 (checkpoint step's SQL), C08/C06/C10 (restore).",
+    "C04": ("The real verifyWithExecutor with lastPageMatch, detectFullCheckpoint, readWALHeader, readWALFileAt and the WAL reader decides continuity on WAL images generated from every abstract history within the bound (replicated frames, unseen frames, up to two restarts, truncation), with symbolic salts, page numbers and images, for a fresh process, the same process, and a DB object carried through the real Close and Open: whenever the answer is 'incremental', ground truth must say no committed frame is missing and the resume point must be the replicated offset or the start of the single new generation. After a local state reset the next acknowledged replica sync must have stored the new files, above everything already on the replica. Every answer of verify is followed by the real DB.sync: the file it publishes, laid over the replicated state (a snapshot must hold every page), must be the source database, and an idle second round must not disturb it (thorough). VxC04ResetContinuity runs the real ResetLocalState in a running process whose replica lags and checks the next verify+sync on whatever session state the reset leaves; VxC04InitBehind runs DB.init with the local state lost and a replica whose calls fail transiently: success means the local position is not below the replica's. Unseen frames may form one two-frame transaction.",
+            "E-WAL is an assumption about SQLite (tested against real SQLite while writing DESIGN.md). Seven defects were found here and repaired (H1, H2, H3 twice, H9, H11, H12).", "DESIGN.md 5 (C04), D.4, 7"),
+    "C01": ("Decided as a composition: VxC01Sync executes the real DB.sync (WAL reader, pageMap, writeLTXFromWAL / writeLTXFromDB, real LTX encoder) on a WAL whose frames after the cursor are symbolic (page numbers 1-4, images, commit marks, open tail) and checks the published file: numbered pos+1, holds a page iff it changed in a committed transaction of the range or lies in the growth range, with the latest committed image, header commit = last commit, synced offset = end of the last commit, synced-to-end flag exact. The other obligations are the harnesses of C04 (continuity), C09 (frame selection), C05 (acknowledgement), C14 (checkpoint step's SQL), C08/C06/C10 (restore). VxC01Ack runs the three acknowledging entry points (SyncAndWait, Store.SyncDB with wait, Close) with the real Sync chunk loop, syncLocked, syncReplicaWithRetry and Replica.Sync over a contract model of the WAL copy: a nil result means the whole committed WAL was copied and every local level-0 file is stored, whatever the backlog and MaxSyncWALBytes. VxC01Sync takes the byte budget as an input (a snapshot ignores it).",
             "The end-to-end statement is a paper composition of separately decided obligations; no single symbolic history runs through sync, checkpoint, upload and restore.", "DESIGN.md 5 (C01)"),
-    "C18": ("The real VFS read path under the vfs build tag - CalcRestorePlan, rebuildIndex/buildIndexMap, FetchPageIndex, FetchLTXHeader, FetchPage, ltx.DecodePageIndex/DecodePageData, pollReplicaClient/pollLevel, Lock/Unlock with the pending index, the LRU page cache, ReadAt, FileSize, SetTargetTime/ResetTime - is executed symbolically over replicas produced by the real ltx encoder from generated primary histories (growth, update, partial shrink, VACUUM) and schedules of uploads, level-1 compactions, level-0 retention, reader locks and polls: at open, after every poll (successful or failed) and in a time-travel view, FileSize and every page equal the restore at VFSFile.Pos(), the position never moves backwards, a time-travel view sits at the last transaction before the requested time and is not disturbed by polls.",
+    "C18": ("The real VFS read path under the vfs build tag - CalcRestorePlan, rebuildIndex/buildIndexMap, FetchPageIndex, FetchLTXHeader, FetchPage, ltx.DecodePageIndex/DecodePageData, pollReplicaClient/pollLevel, Lock/Unlock with the pending index, the LRU page cache, ReadAt, FileSize, SetTargetTime/ResetTime - is executed symbolically over replicas produced by the real ltx encoder from generated primary histories (growth, update, partial shrink, VACUUM) and schedules of uploads, level-1 compactions, level-0 retention, reader locks and polls: at open, after every poll (successful or failed) and in a time-travel view, FileSize and every page equal the restore at VFSFile.Pos(), the position never moves backwards, a time-travel view sits at the last transaction before the requested time and is not disturbed by polls. SetTargetTime may land while a poll that finds a new file is in flight (callback inside the listing call).",
             "Two defects found here were repaired (H6 index replaced/untrimmed on shrink, H10 older level-1 file laid over newer level-0 pages). SQLite reading through the VFS, hydration and the write path are outside the claim.", "DESIGN.md 5 (C18), 7 (H6, H10)"),
 }
 na_reasons = {
@@ -185,7 +185,7 @@ props["C19"] = {
         "segment sizes 1-2 bytes, 1-2 segments per index; instants are whole seconds +- 0.5 s",
     ],
     "stubs": ["ReplicaClientV3 mock serving segments from memory", "checkpointV3 recorder (source rewrite, same stand-in natively)", "file-system model (symfs)", "log/slog no-op"],
-    "outside": ["more than IDX WAL indexes / 2 segments per index", "decompression and SQLite's application of the WAL", "multiple generations in RestoreV3 (snapshot choice across generations is covered by VxC19Select's sort/choose)"],
+    "outside": ["more than IDX WAL indexes / 2 segments per index", "decompression and SQLite's application of the WAL", "more than three generations"],
 }
 
 props["C16"] = {
@@ -202,7 +202,7 @@ props["C16"] = {
         "codec model as in C06 (lz4 identity, crc64 constant); fcntl byte-range locks always granted; crypto/rand yields arbitrary bytes",
     ],
     "stubs": ["ReplicaClient mock (sorted iterator with seek)", "applyLTXFile recorder (source rewrite, same stand-in natively)", "file-system model (symfs) with kill points", "time.Ticker always ready", "log/slog no-op"],
-    "outside": ["page-level equality with an ordinary restore on a real database", "the exclusive byte-range lock against concurrent SQLite readers", "Restore's snapshot-bounds validation of the sidecar TXID before resuming", "more than N files per poll harness"],
+    "outside": ["page-level equality with an ordinary restore on a real database", "the exclusive byte-range lock against concurrent SQLite readers", "more than N files per poll harness"],
 }
 
 props["C05"] = {
@@ -294,7 +294,7 @@ props["C13"] = {
         "A-CFG: when the emergency threshold is the lower one the code evaluates it on the size before the round; the request then arrives in the next round (VxC13Lag), which is reported as an observation, not a violation",
     ],
     "stubs": ["checkpointWithExecutor replaced by E-CKPT / busy / not-restarted outcomes (source rewrite, same stand-in natively)", "file-system model (database mtime)", "clock model", "prometheus / slog no-op"],
-    "outside": ["that SQLite honours E-CKPT", "the real checkpointWithExecutor (covered by C14 and C01's checkpoint step)", "the Sync chunk loop's termination (C01)"],
+    "outside": ["that SQLite honours E-CKPT", "the real checkpointWithExecutor (covered by C14 and C01's checkpoint step)", "the Sync chunk loop beyond what VxC01Ack covers"],
 }
 
 props["C14"] = {
@@ -352,7 +352,7 @@ props["C03"] = {
         "resumption correctness of the WAL cursor after the restart is C04's fresh-process scenario, not decided here",
     ],
     "stubs": ["file-system model (symfs) with kill points", "ReplicaClient mock", "codec model as in C06"],
-    "outside": ["kill points inside SQLite or cgo", "kills during compaction and retention beyond the file backend's WriteLTXFile", "power loss (C11)"],
+    "outside": ["kill points inside SQLite or cgo", "kills during compaction and retention beyond the file backend's WriteLTXFile and the baseline fetch", "power loss (C11)"],
 }
 
 props["C02"] = {
